@@ -316,9 +316,12 @@ where
             }
         };
 
-        sink.close()
-            .await
-            .map_err(|err| TopicLogSyncChannelError::MessageSink(format!("{err:?}")))?;
+        // A failing close ends the session with that error (as before), but must not swallow the
+        // terminal event: fall through to the `Failed` event below instead of returning early.
+        let result = match sink.close().await {
+            Ok(()) => result,
+            Err(err) => Err(TopicLogSyncChannelError::MessageSink(format!("{err:?}")).into()),
+        };
 
         let final_event = match result.as_ref() {
             Ok(_) => {
